@@ -663,7 +663,8 @@ impl ZiPatch {
                                     }
                                 }
                                 SqpkFileOperation::MakeDirTree => {
-                                    fs::create_dir_all(parent_directory)?;
+                                    // the path names the directory tree to make, not a file in it
+                                    fs::create_dir_all(&file_path)?;
                                 }
                             }
                         }
